@@ -828,11 +828,24 @@ func c18LvlMachine(c *Ctx, what string, pairs bool) *Machine[*lvlInst] {
 	return &Machine[*lvlInst]{
 		Name: name,
 		New: func() *lvlInst {
-			if what == "Condition" {
+			switch what {
+			case "Condition":
 				return &lvlInst{x: stackage.Cond("k", stackage.Eq, "v")}
+			case "Condition made while a STACK default level was in force":
+				// the package keeps one default level for Stacks and one for Conditions
+				stackage.SetDefaultStackLogLevel(stackage.LogLevel3 | stackage.LogLevel5)
+				defer stackage.SetDefaultStackLogLevel(stackage.NoLogLevels)
+				var cd stackage.Condition
+				cd.Init()
+				return &lvlInst{x: cd.SetKeyword("k").SetOperator(stackage.Eq).SetExpression("v")}
+			case "AND made while a CONDITION default level was in force":
+				stackage.SetDefaultConditionLogLevel(stackage.LogLevel2 | stackage.LogLevel6)
+				defer stackage.SetDefaultConditionLogLevel(stackage.NoLogLevels)
+				return &lvlInst{x: stackage.And().Push("a")}
 			}
 			return &lvlInst{x: newStackKind(what).Push("a")}
 		},
+		Sequential: strings.Contains(what, "default level"),
 		NumOps:  len(ops),
 		OpName:  func(in *lvlInst, i int) string { return opName(ops[i]) },
 		Enabled: func(*lvlInst, int) bool { return true },
@@ -958,7 +971,8 @@ func init() {
 		for i, n := range pre {
 			sm = append(sm, c18SetMachine(c, fmt.Sprintf("%s encap-prefilled-%d", []string{"LIST", "AND", "OR"}[i%3], n), 0))
 		}
-		lm = append(lm, c18LvlMachine(c, "AND", true), c18LvlMachine(c, "Condition", tier == "thorough"))
+		lm = append(lm, c18LvlMachine(c, "AND", true), c18LvlMachine(c, "Condition", tier == "thorough"),
+			c18LvlMachine(c, "Condition made while a STACK default level was in force", false), c18LvlMachine(c, "AND made while a CONDITION default level was in force", false))
 		return
 	}
 	register(&Check{ID: "C18", Engine: "A", Run: func(c *Ctx) {
